@@ -12,6 +12,20 @@ pdextract.  E2 (sampled path): small Size settings x seeds x example sets of
 EVERY answer of random.sample (all C(n,k) subsets at every call) is
 enumerated by mc.engine.explore_choices.
 
+Round 3 added five dimensions (layers `uclasses`, `meta-roles`,
+`zero-counts`, `sampled-counts`, `real-random`; shared with C13):
+  - one representative of every Unicode general category and of every class
+    on which `re`, the third-party `regex` module and the str predicates
+    disagree, alone / in a variable fragment / pairwise at one position;
+  - every regex metacharacter in every syntactic role it can play, alone and
+    with same-shape partners, x full_escape off/on;
+  - frequency mappings as dict / Counter / OrderedDict, with zero-count
+    entries (not examples) and, on the sampled path, count vectors over
+    {1,2,3} (all 27 for triples);
+  - the sampled path on the REAL random module with seeds {0, 1, None} from
+    fixed global generator pre-states, with and without the extra letters
+    that make the result depend on the draw.
+
 Oracle (mc.models.rex_spec, independent of tdda): every supplied example that
 no option discards (None; empty - after stripping when strip is set - iff
 remove_empties) is matched IN FULL (re.match under UNICODE|DOTALL and
@@ -39,6 +53,10 @@ re-runs of the same configuration on a modified input (RexDriver.diagnose):
                            newline), or accepts it once [0-9] is read as the
                            perl digit class
                            (re-check done on the perl form)
+  zero-count-entry         frequency mapping: the failure disappears when the
+                           entries with count 0 are left out
+  real-random-sampled:unmatched:seed=<int|None>:form=<form>
+                           only on the real random module with a sampling Size
   raises:<Type>:<cause>    extract raised
   unmatched:opts=<needed options>:chars={needed character classes}
                            anything else: greedy minimisation (drop options,
@@ -229,18 +247,20 @@ class RexDriver(Check):
              'role (quantifier braces, group openers, bracket expressions, '
              'escapes, anchors, alternation, repetition): alone and with '
              'same-shape partners varying letters / digits / prefix / suffix '
-             'x 12 option points x full_escape off/on'),
+             'x 8 option points x full_escape off/on'),
             ('zero-counts', 'frequency dictionaries with zero-count entries '
              '({s:0}, {s:0,t:0}, every ordered pair with one zero) as dict '
              '(options within 1 deviation), Counter and OrderedDict'),
             ('sampled-counts', 'E2: frequency dictionaries with counts over '
              '{1,2,3} on the sampled path: all 27 count vectors for triples '
              'of a 6-string pool, uniform and cyclic vectors for its sets of '
-             '4-5 x 8 Size settings, every sample answer; dict / Counter / '
+             '4 x 8 Size settings, every sample answer; dict / Counter / '
              'OrderedDict'),
-            ('real-random', 'the REAL random module (no seam): sets of 4-5 '
+            ('real-random', 'the REAL random module (no seam): sets of 3-4 '
              'from the 8-string pool x 8 Size settings x seeds {0, 1, None} '
-             'x two global generator pre-states; list and dict forms'),
+             'x two global generator pre-states x {default, extra letters '
+             '_-. (the result then depends on the draw)}; list and dict '
+             'forms'),
         ]
 
     def pool_q(self):
@@ -351,7 +371,10 @@ class RexDriver(Check):
                 if s not in singles:
                     singles.append(s)
             for d in A.zero_count_dicts(singles, A.sub_alphabet(12)):
-                yield {'ex': d, 'pts': 'dev1', 'forms': 'dicts'}
+                # 'keys' records the insertion order (the engine's case key
+                # sorts mapping keys)
+                yield {'ex': d, 'keys': list(d), 'pts': 'dev1',
+                       'forms': 'dicts'}
         elif layer == 'sampled-counts':
             for c in self.sampled_count_cases():
                 yield c
@@ -361,7 +384,7 @@ class RexDriver(Check):
         else:
             raise ValueError(layer)
 
-    def sampled_count_cases(self, prune=None):
+    def sampled_count_cases(self, prune=None, settings=None, sizes=(4,)):
         """(set, count vector, mapping form, Size).  The mapping form is
         orthogonal to the counts: Counter / OrderedDict run with the cyclic
         vector only."""
@@ -371,12 +394,12 @@ class RexDriver(Check):
             if prune is not None:
                 c['prune'] = prune
             return c
-        settings = A.SIZE_SETTINGS('quick')
+        settings = settings or A.SIZE_SETTINGS('quick')
         for xs in A.example_sets(A.sub_alphabet(6), 3):
             for counts in A.count_vectors(3, full=True):
                 for st in settings:
                     yield emit(xs, counts, 'dict', st)
-        for n in (4, 5):
+        for n in sizes:
             for xs in A.example_sets(A.sub_alphabet(6), n):
                 vecs = A.count_vectors(n)
                 for counts in vecs:
@@ -387,15 +410,25 @@ class RexDriver(Check):
                             yield emit(xs, counts, 'odict', st)
 
     def real_random_cases(self):
-        for n in (4, 5):
+        """With two or more extra letters the letters kept depend on the
+        first sample, so that the RESULT depends on what is drawn (without
+        them every draw ends in the same expressions for these pools)."""
+        for n in (3, 4):
             for xs in A.example_sets(A.SAMPLED_POOL_Q, n):
                 for st in A.SIZE_SETTINGS('quick'):
-                    for seed in A.REAL_SEEDS:
-                        for pre in A.REAL_PRESTATES:
-                            yield {'ex': xs, 'size': st, 'seed': seed,
-                                   'real': pre, 'form': 'list'}
+                    for kw in A.REAL_OPTION_POINTS:
+                        for seed in A.REAL_SEEDS:
+                            for pre in A.REAL_PRESTATES:
+                                # the second pre-state only where the draw
+                                # can matter and the seed is a boundary value
+                                if pre != A.REAL_PRESTATES[0] and \
+                                        (not kw or seed not in (0, None)):
+                                    continue
+                                yield {'ex': xs, 'size': st, 'seed': seed,
+                                       'real': pre, 'form': 'list',
+                                       'opts': kw}
                     yield {'ex': xs, 'counts': A.count_vectors(n)[3],
-                           'size': st, 'seed': 0,
+                           'size': st, 'seed': 0, 'opts': {},
                            'real': A.REAL_PRESTATES[0], 'form': 'dict'}
 
     def history_cases(self):
@@ -427,6 +460,11 @@ class RexDriver(Check):
             for xs in A.example_sets(pool, n):
                 for st in settings:
                     for (i, seed) in enumerate(seeds):
+                        # two integer seeds differ only in their truth value
+                        # under FakeRandom (the real-random layer runs real
+                        # seeds): the second one not for the largest sets
+                        if i > 1 and n == max(sizes) and len(sizes) > 1:
+                            continue
                         # forms / orders beyond the first only with seed None
                         for form in forms:
                             for order in orders:
@@ -672,6 +710,12 @@ class RexDriver(Check):
         modified input.  Returns a root-cause signature: a known cause (or a
         combination of them) established by counterfactual substitution, else
         the minimised trigger `opts=<needed options>:chars={needed classes}`."""
+        if isinstance(supplied, dict) and 0 in supplied.values():
+            # a zero-count entry was supplied zero times: does the failure
+            # disappear without those entries?
+            if not fails(dict((k, n) for (k, n) in supplied.items() if n),
+                         opts):
+                return 'zero-count-entry'
         cures = self.cures(supplied, focus)
 
         def apply(s2, subs):
@@ -760,7 +804,13 @@ class C03(RexDriver):
             'off/on; and, for the sampled path, (set of 4-7 strings of one '
             'shape whose class is refined between passes, or set of 3-5 strings, '
             'Size(do_all, do_all_exceptions, max_sampled_attempts) in '
-            '{1,2}^3, seed) with every sample answer explored; an evaluation '
+            '{1,2}^3, seed) with every sample answer explored, also for '
+            'frequency mappings with counts over {1,2,3}; one representative '
+            'of every Unicode general category (37 characters) alone, in a '
+            'variable fragment and pairwise; 124 strings with every regex '
+            'metacharacter in every syntactic role x full_escape; frequency '
+            'mappings with zero-count entries; sets of 3-4 on the real '
+            'random module x seeds {0,1,None} x pre-states; an evaluation '
             'is one extract/pdextract call; a case is non-trivial when at '
             'least one supplied example is not discarded by the options of '
             'at least one of its evaluations')
@@ -778,7 +828,14 @@ class C03(RexDriver):
         'are not examples',
         'with FakeRandom the seed changes only the seed/getstate/setstate '
         'calls; every subset any seed could select is enumerated; the order '
-        'of the returned sample is canonical (thorough: also reversed)',
+        'of the returned sample is canonical (thorough: also reversed); the '
+        'real-random layer runs the unpatched random module from the states '
+        'random.Random(11|12).getstate() (restored afterwards)',
+        'Unicode: one representative per general category (BMP, two astral), '
+        'not every character; unassigned code points count as unicode '
+        'strings; negative dictionary counts are outside (documented as '
+        'non-negative); full_escape is enumerated in the meta-roles layer '
+        'only',
         'thorough repeats only the quick layers under hash seeds 1 and 2',
         'every case (and every history) starts from the pristine module '
         'state found by introspection (module globals, class attributes, '
@@ -963,6 +1020,7 @@ class C03(RexDriver):
         ex, size, seed = self.case_examples(case), case['size'], case['seed']
         form = case['form']
         opts = dict(A.DEFAULT_OPTIONS)
+        opts.update(case.get('opts') or {})
         supplied = self.supplied(ex, form)
         kept = M.kept_examples(supplied)
         R.nontrivial = bool(kept)
@@ -973,7 +1031,8 @@ class C03(RexDriver):
             moved = S.real_state_token() != before
         R.ev()
         detail = {'examples': supplied, 'form': form, 'size': size,
-                  'seed': seed, 'global_prestate': case['real']}
+                  'seed': seed, 'global_prestate': case['real'],
+                  'options': A.opt_key(opts)}
         if exc is not None:
             R.out('real-raises:%s' % type(exc).__name__)
             R.viol('real-random-raises:%s' % type(exc).__name__,
